@@ -101,6 +101,7 @@ def main():
 
     root = job["scratch"]
     os.makedirs(root, exist_ok=True)
+    os.chdir(job["cwd"])          # user variable files are named relatively to the variant directory
     counter = [0]
     packages, documents = {}, {}
 
